@@ -93,6 +93,13 @@ CLAIMED.update({
             "Exactness of the calendar arithmetic (time.Date, time.Parse for offsets) and rejection of non-digit bytes are not decided.", "§4 C13"),
 })
 
+CLAIMED.update({
+    "C10": ("static range proofs of header lengths (linear facts engine over SSA), sibling comparison of reserve/back-patch sites by canonical predicate, exactly-once path enumeration per loop iteration, who-may-write analysis",
+            "The shape of the hand-rolled MessagePack encoder on every path: every header with a 4-bit or 16-bit length field is called with a length proved to fit (two 16-bit map counts bounded by the schema size are accepted on review); back-patched headers have the width and the selecting predicate of their reservation; "
+            "the root map count starts at 1 and is incremented exactly once per emitted pair, the environment map announces the number of locators and writes one key and one value per locator even when empty; serialization never writes the record; every LogRewriter returns 0 <= n <= len(buffer), a non-negative maximum, and accounts for every operand it writes. "
+            "Decode equality, the bytes inside fields, escape semantics and the event-time encoding are not decided.", "§4 C10"),
+})
+
 NOT_APPLICABLE = {
     "C08": "framing independent of TCP segmentation is an extensional equality between the record sequence under every fragmentation and a reference framer; its truth lives in index arithmetic over runtime offsets, no structural clause short of re-deriving the algorithm is a necessary condition (index SAFETY of multiLineReader is decided under C07)",
     "C14": "completeness/exactness of e-mail redaction is a language-recognition property of a hand-written scanner over all texts (value-level); static analysis in reach decides only its index safety (under C07)",
